@@ -34,13 +34,13 @@ use crate::builders::{
   BusinessKnowledgeModelEvaluator, DecisionEvaluator, DecisionServiceEvaluator, InputDataContextEvaluator, InputDataEvaluator, ItemDefinitionContextEvaluator,
   ItemDefinitionEvaluator, ItemDefinitionTypeEvaluator,
 };
-use crate::errors::{err_read_lock_failed, err_write_lock_failed};
+use crate::errors::{err_cyclic_dependency, err_read_lock_failed, err_write_lock_failed};
 use dmntk_common::Result;
 use dmntk_feel::context::FeelContext;
 use dmntk_feel::values::Value;
 use dmntk_feel::{value_null, Name};
-use dmntk_model::model::Definitions;
-use std::collections::HashMap;
+use dmntk_model::model::{Definitions, DmnElement, Expression, NamedElement};
+use std::collections::{BTreeMap, HashMap};
 use std::sync::{Arc, RwLock, RwLockReadGuard};
 
 ///
@@ -74,9 +74,97 @@ pub struct ModelEvaluator {
   invocable_by_name: RwLock<HashMap<String, InvocableType>>,
 }
 
+/// Returns a node that lies on a cycle of the directed graph given by its edges, if there is one.
+fn find_cycle(edges: &BTreeMap<String, Vec<String>>) -> Option<String> {
+  // nodes on the path being explored are marked `false`, completely explored nodes are marked `true`
+  let mut explored: BTreeMap<&str, bool> = BTreeMap::new();
+  for start in edges.keys() {
+    if explored.contains_key(start.as_str()) {
+      continue;
+    }
+    explored.insert(start.as_str(), false);
+    let mut path: Vec<(&str, usize)> = vec![(start.as_str(), 0)];
+    while let Some((node, index)) = path.pop() {
+      match edges.get(node).and_then(|targets| targets.get(index)) {
+        Some(target) => {
+          path.push((node, index + 1));
+          match explored.get(target.as_str()) {
+            Some(false) => return Some(target.clone()),
+            Some(true) => {}
+            None => {
+              explored.insert(target.as_str(), false);
+              path.push((target.as_str(), 0));
+            }
+          }
+        }
+        None => {
+          explored.insert(node, true);
+        }
+      }
+    }
+  }
+  None
+}
+
+/// Checks that no decision, business knowledge model or decision service requires itself
+/// (directly or through other requirements) and that no item definition refers to itself:
+/// building or evaluating such a model would never end.
+fn check_cyclic_dependencies(definitions: &Definitions) -> Result<()> {
+  let mut edges: BTreeMap<String, Vec<String>> = BTreeMap::new();
+  for decision in definitions.decisions() {
+    if let Some(id) = decision.id() {
+      let targets = edges.entry(id.clone()).or_default();
+      for information_requirement in decision.information_requirements() {
+        if let Some(href) = information_requirement.required_decision() {
+          targets.push(href.into());
+        }
+      }
+      for knowledge_requirement in decision.knowledge_requirements() {
+        if let Some(href) = knowledge_requirement.required_knowledge() {
+          targets.push(href.into());
+        }
+      }
+    }
+  }
+  for business_knowledge_model in definitions.business_knowledge_models() {
+    if let Some(id) = business_knowledge_model.id() {
+      let targets = edges.entry(id.clone()).or_default();
+      for knowledge_requirement in business_knowledge_model.knowledge_requirements() {
+        if let Some(href) = knowledge_requirement.required_knowledge() {
+          targets.push(href.into());
+        }
+      }
+    }
+  }
+  for decision_service in definitions.decision_services() {
+    if let Some(id) = decision_service.id() {
+      let targets = edges.entry(id.clone()).or_default();
+      for href in decision_service.encapsulated_decisions().iter().chain(decision_service.output_decisions()) {
+        targets.push(href.into());
+      }
+    }
+  }
+  // the type of an item definition is built from the types it refers to, directly or in its components
+  for item_definition in definitions.item_definitions() {
+    let targets = edges.entry(format!("item definition {}", item_definition.name())).or_default();
+    let mut components = vec![item_definition];
+    while let Some(component) = components.pop() {
+      if let Some(type_ref) = component.type_ref() {
+        targets.push(format!("item definition {}", type_ref));
+      }
+      components.extend(component.item_components());
+    }
+  }
+  match find_cycle(&edges) {
+    Some(node) => Err(err_cyclic_dependency(&node)),
+    None => Ok(()),
+  }
+}
+
 impl ModelEvaluator {
   /// Creates an instance of [ModelEvaluator].
   pub fn new(definitions: &Definitions) -> Result<Arc<Self>> {
+    check_cyclic_dependencies(definitions)?;
     let model_evaluator = Arc::new(ModelEvaluator::default());
     model_evaluator
       .input_data_evaluator
